@@ -209,6 +209,7 @@ func (s *State) top() *Frame { return s.frames[len(s.frames)-1] }
 // ---------- verification context for one function ----------
 
 type Ctx struct {
+	extraMods    []modEntry
 	curBatch     string
 	batchSeq     int
 	batchMembers []*Obligation
